@@ -1061,6 +1061,11 @@ VARIANTS += [
     ], ("RESULT-SCOPE",)),
     M("layout-state-registered-late", LAYOUT, "        layout_state[root_species] = state\n\n        for root_gene in gene_tree.traverse(\"postorder\"):", "        for root_gene in gene_tree.traverse(\"postorder\"):", "PLACED-IN-SPECIES", note="registration dropped altogether"),
     M("segdist-complete-parent-fast-path", SUBS, "    for _ in range(parent.bit_length()):\n        bit_child = child & 1", "    if parent == (1 << parent.bit_length()) - 1 and child == parent:\n        return 0\n\n    for _ in range(parent.bit_length()):\n        bit_child = child & 1", "SEGMENT-MACHINE"),
+    Variant("thl-table-species-major", REC, [
+        ("    for root_node in rec_input.object_tree.traverse(\"postorder\"):\n        if root_node.is_leaf():\n            root_species = rec_input.leaf_object_species[root_node]\n            table[root_node][root_species] = Candidate(0)\n        else:\n            for root_species in rec_input.species_lca.tree.traverse(\"postorder\"):\n",
+         "    inner_eq = []\n\n    for root_node in rec_input.object_tree.traverse(\"postorder\"):\n        if root_node.is_leaf():\n            root_species = rec_input.leaf_object_species[root_node]\n            table[root_node][root_species] = Candidate(0)\n        else:\n            inner_eq.append(root_node)\n\n    for root_species in rec_input.species_lca.tree.traverse(\"postorder\"):\n        for root_node in inner_eq:\n            if True:\n"),
+    ], ("FILL-OBJECT-MAJOR",)),
+    M("edge-event-alias", MODEL, "    SEGMENTAL_LOSS = auto()", "    SEGMENTAL_LOSS = FULL_LOSS", "KIND-ENUM-BASE", note="an alias by assignment of another member"),
     M("update-returns-in-loop", DP, "                self._value = value\n\n    update.__doc__", "                self._value = value\n                return\n\n    update.__doc__", "UPDATE-ALL-CANDIDATES"),
 ]
 
@@ -1071,7 +1076,7 @@ CANARY_RULES = (
     "COPY-BEFORE-MUTATE", "FRESH-ATTACH", "FRESH-STARTS", "ESCAPE-TAINT", "PREORDER-STATE", "TABLE-FRESH-CELLS",
     "NONE-SENTINEL-TRUTH", "OPTIONAL-CHECKED", "NO-TOPOLOGY-WRITE", "ELEMENT-UPDATE", "RESULT-UNCONDITIONAL",
     "FIELD-SOURCE", "SORT-KEY-ALIGNED", "ENTRY-OWNS-TAGS",
-    "TABLE-ENTRY-POLICIES", "PROTOCOL-ONLY", "SUPERTREE-DELEGATES", "WRAP-FINAL-TEXT", "UNPACK-SPLIT", "PARAM-NOT-REWRITTEN", "VARARGS-AS-GIVEN", "KINDS-COMPLETE", "TREE-AS-GIVEN", "BRANCH-COMPLETE-ASSIGN", "TRIPLES-RECURSION", "JSON-INFINITE-COSTS", "LABEL-LINEBREAKS", "LOSS-COLOR-OWN",
+    "FILL-OBJECT-MAJOR", "TABLE-ENTRY-POLICIES", "PROTOCOL-ONLY", "SUPERTREE-DELEGATES", "WRAP-FINAL-TEXT", "UNPACK-SPLIT", "PARAM-NOT-REWRITTEN", "VARARGS-AS-GIVEN", "KINDS-COMPLETE", "TREE-AS-GIVEN", "BRANCH-COMPLETE-ASSIGN", "TRIPLES-RECURSION", "JSON-INFINITE-COSTS", "LABEL-LINEBREAKS", "LOSS-COLOR-OWN",
     "PARSE-READONLY", "GEOM-NO-ORDER", "GRAPH-AS-GIVEN", "EVAL-NO-SHORTCUT", "CLOSURE-LATE-BINDING", "REFINEMENT-PAIRING", "KIND-ENUM-BASE", "TAG-TEST-CONSISTENT", "ROOT-CONTENT",
     "KEY-GUARD", "HASH-IDENTITY", "COST-GUARD", "COPY-FAITHFUL", "NAME-AS-KEY", "ENUM-NO-TRUNCATION", "SET-ALGEBRA-ARGS",
     "LEAF-MAP-DOMAIN", "WIDTH-VERBATIM", "TOPO-VERDICT", "ROOT-ORDER-SOURCE",
